@@ -65,3 +65,16 @@ def check(ctx):
         exp = [c for c in ex if any(PT in t for t in c.targs)]
         ctx.expect_sites("4.imported", imp, at_least=1, what="on-chain import worker for ProcessedTransactions")
         ctx.expect_sites("4.exported", exp, at_least=1, what="export task for ProcessedTransactions")
+
+    # -- a failed lookup is an error, not "never processed" --
+    with ctx.clause("5.lookup-error-propagates"):
+        db5 = F.unit(f"{EX}::check_tx_is_not_duplicate").root
+        ck = [c for c in db5.calls if c.bb in db5.live and c.name == "contains_key"]
+        ctx.expect_sites("5.processed-lookup", ck, exactly=1, what="ProcessedTransactions.contains_key(tx_id)")
+        if ck:
+            sw5 = [c for c in db5.calls if c.bb in db5.live and c.name in ("unwrap_or_default", "unwrap_or", "unwrap_or_else", "ok", "is_ok_and", "is_ok", "unwrap_or_else") and
+                   atom_match(Origins(db5, 1).atoms(c.args[0]), "call:*::contains_key")]
+            ctx.expect_sites("5.lookup-error-not-defaulted", sw5, exactly=0, what="defaulting of a failed ProcessedTransactions lookup (a storage error would count as `not processed` and the transaction would run again)")
+            bad5, _ = ctx.ok_edges(ck[0], polarity="bad")
+            ctx.add("5.lookup-error-is-an-error-exit", "REJECT", bool(bad5) and all(db5.path([ctx._edge_target(db5, e)], db5.return_blocks(), cut_blocks=db5.error_blocks()) is None for e in bad5),
+                    "a storage error of the lookup leaves check_tx_is_not_duplicate through an error exit", sites=[ck[0].where()], site_key="err")
